@@ -574,6 +574,21 @@ static std::string doOp(const std::string& op) {
     return res;
   }
   // END C12
+  // BEGIN C09: `setq K <hexname> <V>` = `set`, then the symbol's static type is reset to opaque (NO_TYPE):
+  // the next parse sees an untyped variable, so the run-time checks of the member methods are reached
+  if (cmd == "setq") {
+    Context& c = *K(1).ctx; std::string name = hexdec(a.at(2));
+    const char* p = a.at(3).c_str();
+    Value v = parseCanon(p);
+    try {
+      Symbol& s = c.registerSymbol(name, Type());
+      c.storeVariable(s.id(), std::move(v));
+      c.getSymbol(s.id()).upgrade(Type());
+    } catch (ParseError& pe) { return perr(pe); }
+    catch (RuntimeError& re) { return rerr(re); }
+    return "ok";
+  }
+  // END C09
   if (cmd == "parse") {
     Context& c = *K(1).ctx; StringReader reader(hexdec(a.at(3)));
     try { X(2) = Parser::parse(c, reader); return "ok"; }
